@@ -131,8 +131,8 @@ def track1 (n : Nat) (s : PySt) : Call → Option (Option PySt)
   | .instantiate keys => match s.stack with
       | (.proved a, _) :: st =>
           if keys.isEmpty then
-            -- `stack[-0:]` is the whole stack: the call only passes when nothing else is on it
-            (if st.isEmpty then some (some { s with stack := [(.proved a, false)] }) else some none)
+            -- (F10) the empty map: no plugs are taken, `BasicInterpreter.instantiate` returns the proof unchanged
+            some (some { s with stack := (.proved a, false) :: st })
           else match takePlugs keys.length st with
             | none => some none
             | some (plugs, st') => do
